@@ -335,6 +335,13 @@ JsonDots(J, s) ==
    ELSE LET h == CHOOSE x \in hits : TRUE
             st == SelectSeq(J[h[1]].els[h[2]].steps, LAMBDA sp : sp.status # "") IN
         [p \in DOMAIN st |-> DotOf(st[p].status)]
+\* the scenario variant of the progress formatter shows one mark per shown scenario: it agrees with the other reports (and
+\* the model after the run) on the FINAL status of each scenario -- a hook or cleanup after the last step may still turn a
+\* scenario whose steps all passed into an error.  p1 = Seq([feat, chars]), one line per shown feature
+ScenarioMarks(p1, has1, X, a) ==
+   IF has1 /\ p1 # [k \in DOMAIN a.shown |-> [feat |-> a.shown[k].feat,
+                                                chars |-> [j \in DOMAIN a.shown[k].scens |-> DotOf(StOf(X, a.shown[k].scens[j]))]]]
+   THEN {<<"C15.agree", "scenario_marks">>} ELSE {}
 Agree(J, hasJ, lines, hasP, p3, has3, X, a) ==
    UNION {
       LET views == (IF hasJ THEN {JsonDots(J, s)} ELSE {})
